@@ -8,6 +8,8 @@ package uuid
 // NewV4 (C18): version 4, variant 1, every other bit comes unchanged from crypto/rand.Read.
 // randByte(i) names the i-th byte produced by the Read call of this execution.
 //@ func NewV4() (u *UUID)
+//@   frame [C17, C18]
+//@   assigns nothing
 //@   fresh [C18] u
 //@   ensures [C18] version: u[6] / 16 == 4
 //@   ensures [C18] variant: u[8] / 64 == 2
